@@ -11,9 +11,14 @@ inductive Step (net : Net) : State → Act → State → Prop where
       Step net s (.get n c k) { s with chans := upd s.chans c rest, nodes := upd s.nodes n (.d plan),
                                        ledger := if nd.sink then s.ledger - 1 else s.ledger }
   | getStop {s n c nd rest} : net.nodes[n]? = some nd → s.nodes n = .d [] → c ∈ nd.ins →
-      s.chans c = .stop :: rest →
+      s.chans c = .stop :: rest → waitAfter nd (s.wait n) c = [] →
       Step net s (.get n c 0) { s with chans := upd s.chans c rest,
-                                       nodes := upd s.nodes n (.s ((if nd.rebro then [c] else []) ++ nd.souts)) }
+                                       nodes := upd s.nodes n (.s ((if nd.rebro then [c] else []) ++ nd.souts)),
+                                       wait := upd s.wait n [] }
+  | getStopWait {s n c nd rest} : net.nodes[n]? = some nd → s.nodes n = .d [] → c ∈ nd.ins →
+      s.chans c = .stop :: rest → waitAfter nd (s.wait n) c ≠ [] →
+      Step net s (.get n c 0) { s with chans := upd s.chans c rest,
+                                       wait := upd s.wait n (waitAfter nd (s.wait n) c) }
   | putData {s n c rest} : n < net.nodes.length → s.nodes n = .d (c :: rest) → room net s c = true →
       Step net s (.put n) { s with chans := upd s.chans c (s.chans c ++ [.data]), nodes := upd s.nodes n (.d rest) }
   | putStop {s n c rest} : n < net.nodes.length → s.nodes n = .s (c :: rest) →
@@ -44,7 +49,11 @@ theorem step_sound (net : Net) (s s' : State) (a : Act) (h : step net s a = some
           · rename_i plan hp; simp at h; subst h; exact .getData hnd hc.1 hc.2 hq hp
         · rename_i rest hq
           split at h
-          · rename_i hk; simp at h; subst h; subst hk; exact .getStop hnd hc.1 hc.2 hq
+          · rename_i hk
+            subst hk
+            split at h
+            · rename_i hw; simp at h; subst h; exact .getStop hnd hc.1 hc.2 hq hw
+            · rename_i hw; simp at h; subst h; exact .getStopWait hnd hc.1 hc.2 hq hw
           · simp at h
       · simp at h
   case put n =>
